@@ -156,6 +156,9 @@ func LoadEngine(dir string, patterns []string, specDirs []string) (*Engine, erro
 	for _, c := range e.specs.Contracts {
 		if !c.FromRepo {
 			c.FuncName = expandAliases(c.FuncName)
+			if c.PkgPath != "" && e.typesPkg(c.PkgPath) == nil {
+				continue // a contract scoped to a package that is not part of this program
+			}
 		}
 		e.contracts[c.FuncName] = append(e.contracts[c.FuncName], c)
 	}
